@@ -27,22 +27,12 @@ Proof. exact set_value_spec. Qed.
 Theorem C09_value_reads_bit : forall a k, wf a -> k < a_size a -> value a (Z.of_nat k) = Ok (bit_at (a_words a) k).
 Proof. exact value_spec. Qed.
 
-(* the only index check the code makes *)
-Theorem C09_index_at_or_beyond_size_panics : forall a i v, (Z.of_nat (a_size a) <= i)%Z ->
-  set_value a i v = Panic /\ value a i = Panic.
-Proof. exact out_of_range_panics. Qed.
-
 (* what ModelCompressor.compressActions builds (New(len); SetValue(index, flag) in order) is the little-endian
-   packing of the flags into 64-bit words, with an empty memo *)
-Theorem C09_build_is_packing : forall bs, build bs = Ok (of_bits bs).
-Proof. exact build_is_of_bits. Qed.
-
-Theorem C09_packing_well_formed : forall bs, wf (of_bits bs) /\ bits (of_bits bs) = bs.
-Proof. exact of_bits_wf_bits. Qed.
-
-(* the invariant is a boolean *)
-Theorem C09_wf_boolean : forall a, wfb a = true <-> wf a.
-Proof. exact wfb_iff. Qed.
+   packing of the flags into 64-bit words, with an empty memo; it satisfies the representation invariant
+   ([wf], a boolean: wfb_iff) and its abstract bit vector is the flag list *)
+Theorem C09_build_is_packing : forall bs,
+  build bs = Ok (of_bits bs) /\ wf (of_bits bs) /\ bits (of_bits bs) = bs.
+Proof. exact build_packing. Qed.
 
 (* ---------------------------------------------------------------------------------------------- *)
 (** 2. Lossless: round trip, for every size n >= 1. *)
@@ -56,13 +46,8 @@ Theorem C09_roundtrip_any_target : forall a b, wf a -> wf b -> a_size a = a_size
   decode b (encode_words (a_words a)) = Ok (mk_archive (a_size b) (a_words a) EmptyString, true).
 Proof. exact decode_encoding. Qed.
 
-Theorem C09_roundtrip_bits : forall bs s, bs <> [] -> encode_bits bs = Ok s ->
-  forall b, wf b -> a_size b = List.length bs ->
-  exists b', decode b s = Ok (b', true) /\ bits b' = bs /\ wf b' /\ a_size b' = List.length bs /\ a_memo b' = EmptyString.
-Proof. exact roundtrip_bits. Qed.
-
 (* size 0 is outside the property (n >= 1) and the round trip really fails there: "" splits into one entry *)
-Theorem C09_size0_not_roundtrip :
+Example C09_size0_not_roundtrip :
   decode (new_archive 0) (snd (encoding (of_bits []))) = Ok (new_archive 0, false).
 Proof. exact size0_not_roundtrip. Qed.
 
@@ -122,12 +107,6 @@ Proof. exact memo_stale_after_rejected_decode. Qed.
 (* ---------------------------------------------------------------------------------------------- *)
 (** 5. The action order is a deterministic function of the data. *)
 
-Theorem C09_less_strict_total_order :
-  (forall k, less k k = false)
-  /\ (forall a b c, less a b = true -> less b c = true -> less a c = true)
-  /\ (forall a b, less a b = false -> less b a = false -> a = b).
-Proof. exact less_strict_total. Qed.
-
 Theorem C09_order_deterministic : forall {A} (key_of : A -> key) l1 l2,
   NoDup (map key_of l1) -> Permutation l1 l2 -> sort_actions key_of l1 = sort_actions key_of l2.
 Proof. exact @sort_deterministic. Qed.
@@ -139,10 +118,6 @@ Theorem C09_any_sort_agrees : forall {A} (key_of : A -> key) (sort' : list A -> 
   forall l1 l2, NoDup (map key_of l1) -> Permutation l1 l2 -> sort' l1 = sort_actions key_of l2.
 Proof. exact @any_sort_agrees. Qed.
 
-Theorem C09_sort_is_a_sorted_permutation : forall {A} (key_of : A -> key) l,
-  Permutation l (sort_actions key_of l) /\ StronglySorted (le_act key_of) (sort_actions key_of l).
-Proof. exact @sort_correct. Qed.
-
 (* ---------------------------------------------------------------------------------------------- *)
 (** 6. Portable: Compress -> Encoding -> Decode -> Decompress into another instance. *)
 
@@ -150,10 +125,6 @@ Proof. exact @sort_correct. Qed.
 Theorem C09_transfer : forall src dst, src <> [] -> List.length src = List.length dst ->
   transfer src dst = Ok (Some src).
 Proof. exact transfer_spec. Qed.
-
-Theorem C09_rejected_text_changes_nothing : forall s dst,
-  decode_accepts (nwords (List.length dst)) s = false -> transfer_text s dst = Ok None.
-Proof. exact transfer_text_rejected. Qed.
 
 (* two instances of one scenario = the same distinct (planning unit, type) keys gathered in two arbitrary orders
    (Go map iteration); any action set of the first arrives on the second as the same active set *)
@@ -246,25 +217,17 @@ Qed.
 Print Assumptions C09_word_arithmetic_refines.
 Print Assumptions C09_set_value_refines.
 Print Assumptions C09_value_reads_bit.
-Print Assumptions C09_index_at_or_beyond_size_panics.
 Print Assumptions C09_build_is_packing.
-Print Assumptions C09_packing_well_formed.
-Print Assumptions C09_wf_boolean.
 Print Assumptions C09_roundtrip.
 Print Assumptions C09_roundtrip_any_target.
-Print Assumptions C09_roundtrip_bits.
-Print Assumptions C09_size0_not_roundtrip.
 Print Assumptions C09_decode_total.
 Print Assumptions C09_canonical.
 Print Assumptions C09_canonical_wf.
 Print Assumptions C09_reachable_well_formed.
 Print Assumptions C09_cache_sound.
 Print Assumptions C09_memo_stale_after_rejected_decode.
-Print Assumptions C09_less_strict_total_order.
 Print Assumptions C09_order_deterministic.
 Print Assumptions C09_any_sort_agrees.
-Print Assumptions C09_sort_is_a_sorted_permutation.
 Print Assumptions C09_transfer.
-Print Assumptions C09_rejected_text_changes_nothing.
 Print Assumptions C09_portable.
 Print Assumptions C09_portable_values.
